@@ -18,7 +18,7 @@ ASSUMPTIONS = ['statistical bounds are set at >= 7 sigma of the estimator (false
                '"rejects" means raises an exception instead of returning a frame']
 PLAN = {'quick': {'gen': 8}, 'thorough': {'gen': 16, 'tests': 1, 'docs': 1}}
 REQUIRED_BUCKETS = ['shot:poisson', 'shot:gaussian', 'shot:reject-negative', 'shot:reject-huge', 'shot:reject-array',
-                    'read_noise', 'read_noise:small-frames', 'read_noise:cube', 'dark:nofpn', 'dark:fpn', 'rule07', 'psd:square', 'psd:nonsquare', 'cosmic', 'fresh-process']
+                    'read_noise', 'read_noise:small-frames', 'read_noise:cube', 'dark:nofpn', 'dark:fpn', 'rule07', 'psd:square', 'psd:nonsquare', 'cosmic', 'cosmic:long-side', 'fresh-process']
 REQUIRED_ANCHORS = ['anchor:shot_noise', 'anchor:read_noise', 'anchor:dark_current', 'anchor:power_spectrum',
                     'anchor:_cosmic_ray', 'anchor:_nrays']
 REQUIRED_ORACLES = ['deterministic', 'seed-sensitive', 'global-rng-untouched', 'global-rng-independent', 'poisson:support',
@@ -253,11 +253,17 @@ def workload(ctx, lentil):
     for i in range(nc):
         state = ctx.seed * 1000003 + ctx.shard * 100003 + i
         shape = gen.rshape(rng, 2, 24)
+        long = i % 6 == 5
+        if long:
+            # a strip detector with one very long side (more pixels than a 16-bit index can address)
+            shape = (int(rng.integers(33000, 80000)), int(rng.integers(2, 5)))
+            if rng.random() < 0.5:
+                shape = shape[::-1]
         px = (float(rng.uniform(3e-6, 2e-5)), float(rng.uniform(3e-6, 2e-5)), float(rng.uniform(1e-6, 2e-5)))
         area = shape[0] * px[0] * shape[1] * px[1]
         nr = float(rng.choice([0.3, 1, 3, 8]))
         ts = nr / (4e4 * area)
-        ctx.case({'cosmic-state': state, 'shape': list(shape), 'px': list(px), 'rays': nr}, ['cosmic'])
+        ctx.case({'cosmic-state': state, 'shape': list(shape), 'px': list(px), 'rays': nr}, ['cosmic:long-side' if long else 'cosmic'])
         np.random.seed(state % (2 ** 32))
         try:
             with np.errstate(all='ignore'):
@@ -266,7 +272,7 @@ def workload(ctx, lentil):
                       'cosmic-ray frame does not have the requested shape / is negative or non-finite',
                       {'state': state, 'shape': list(shape)})
         except Exception as e:
-            ctx.check(False, 'cosmic:wellformed', f'cosmic|raises={type(e).__name__}', f'cosmic_rays raised {type(e).__name__}: {e}',
+            ctx.check(False, 'cosmic:wellformed', f'cosmic|raises={type(e).__name__}' + ('|long-side' if long else ''), f'cosmic_rays raised {type(e).__name__}: {e}',
                       {'state': state, 'shape': list(shape), 'px': list(px), 'ts': ts})
     # ---- history independence across processes: pairs of calls that differ in ONE argument are evaluated here in one order
     # and in a fresh interpreter in the opposite order; every result must be the same in both -----------------------------
